@@ -118,7 +118,37 @@ def load_known_signatures(prop):
 
 # ------------------------------------------------------------------ hypothesis driver
 
-def hyp_search(ctx, strategy, check, max_examples, label="main", shrink_calls=400):
+class _CaseTimeout(BaseException):
+    pass
+
+
+def _on_alarm(signum, frame):
+    raise _CaseTimeout()
+
+
+def with_watchdog(check, cap):
+    """run check(case) under a wall-clock cap; a case that does not come back is reported as a hang of
+    the code under test (C10's subject, whichever check meets it), never left hanging"""
+    import signal
+
+    def guarded(case):
+        try:
+            old = signal.signal(signal.SIGALRM, _on_alarm)
+        except ValueError:  # not in the main thread
+            return check(case)
+        signal.setitimer(signal.ITIMER_REAL, cap)
+        try:
+            return check(case)
+        except _CaseTimeout:
+            raise Violation("C10:does-not-return-within-cap", {"cap_s": cap, "note": "the oracle call did not come back"})
+        finally:
+            signal.setitimer(signal.ITIMER_REAL, 0)
+            signal.signal(signal.SIGALRM, old)
+
+    return guarded
+
+
+def hyp_search(ctx, strategy, check, max_examples, label="main", shrink_calls=400, case_cap=180):
     """Run `check(case)` over generated cases.  check returns None (ok/discard) or raises Violation.
     Violations whose signature is a known open finding are counted and do not stop the search.
     The first unknown violation is shrunk (bounded) and recorded in ctx.stats.violations."""
@@ -126,6 +156,8 @@ def hyp_search(ctx, strategy, check, max_examples, label="main", shrink_calls=40
     from hypothesis import HealthCheck, Phase, given, settings
 
     holder = {"post": 0}
+    if case_cap:
+        check = with_watchdog(check, case_cap)
     failed = {}  # sha(case) -> Violation: outcomes stay consistent, so Hypothesis never sees flakiness
 
     def wrapped(case):
@@ -148,6 +180,8 @@ def hyp_search(ctx, strategy, check, max_examples, label="main", shrink_calls=40
             failed[h] = v
             holder["v"] = v
             holder["case"] = case
+            if v.signature == "C10:does-not-return-within-cap":
+                holder["post"] = shrink_calls  # every further attempt costs the whole cap: do not shrink
             raise
 
     phases = [Phase.generate, Phase.shrink]
